@@ -400,6 +400,32 @@ def run(chk: Check) -> None:
                      {"fields": fields, "files": [(a, b.hex(), c, d) for a, b, c, d in files], "boundary": b2, "got": str(got2)[:300]})
         chk.count("e2e")
 
+    # ---------------- a caller-supplied input_stream positioned AFTER an already consumed head: the builder declares the
+    # remaining length and the request reads exactly the encoded form (both encodings)
+    from werkzeug.test import encode_multipart as _encmp
+    for _ in range(60 if quick else 1500):
+        fields = [(gen_name(rng), gen_text(rng, 6)) for _ in range(rng.choice([1, 2, 3]))]
+        head = bytes(rng.randrange(256) for _ in range(rng.choice([0, 1, 7, 100, 70000])))
+        tail = b""          # nothing may follow: the builder reads to the end of the stream
+        if rng.random() < 0.5:
+            bnd, wire = _encmp(MultiDict(fields), boundary=rng.choice(["B", "bnd-1", "x" * 40]))
+            ctype = f"multipart/form-data; boundary={bnd}"
+        else:
+            from werkzeug.urls import _urlencode as _ue
+            wire, ctype = _ue(fields).encode("ascii"), "application/x-www-form-urlencoded"
+        st = io.BytesIO(head + wire + tail)
+        st.seek(len(head))
+        try:
+            req = Request(EnvironBuilder(method="POST", input_stream=st, content_type=ctype).get_environ())
+            got = (req.content_length, list(req.form.items(multi=True)))
+        except Exception as e:  # noqa: BLE001
+            got = repr(e)
+        want = (len(wire), list(MultiDict(fields).items(multi=True)))
+        if got != want:
+            chk.fail("builder-input-stream-offset", f"input_stream positioned at {len(head)}: request read {str(got)[:200]}, expected {str(want)[:200]}",
+                     {"head_len": len(head), "content_type": ctype, "fields": fields})
+        chk.case(("instream", len(head), ctype, tuple(fields)), True)
+
     # ---------------- per-part charset of a text field (Content-Type: text/plain; charset=...): the field text survives for every
     # spelling of the four charsets the parser honours (ascii, us-ascii, utf-8, iso-8859-1; any letter case, quoted or not);
     # any other charset is read as UTF-8 with replacement
